@@ -53,6 +53,7 @@ type replayResult struct {
 	AssumeFail  bool              `json:"assume_failed"`
 	TapeMisses  []string          `json:"tape_misses"`
 	WallClockOK bool              `json:"wall_clock_ok"`
+	Hung        bool              `json:"hung,omitempty"`
 }
 
 func shortName(full string) string {
@@ -218,7 +219,7 @@ func (rp *report) nativeReplay() {
 		// retry cases whose wall-clock window was missed
 		var retry []replayCase
 		for _, c := range cases {
-			if r := res[c.ID]; r != nil && !r.WallClockOK {
+			if r := res[c.ID]; r != nil && !r.WallClockOK && !r.Hung {
 				retry = append(retry, c)
 			}
 		}
@@ -272,7 +273,9 @@ func (rp *report) judge(cr caseRef, r *replayResult) {
 		fail("native run asked for inputs not on the tape (path divergence): " + strings.Join(r.TapeMisses, ","))
 		return
 	}
-	if !r.WallClockOK {
+	// a hang that reproduces a reported deadlock cannot, by nature, finish inside the wall-clock window
+	hungAsPredicted := reproduced && r.Hung && strings.Contains(c.Assertion, "DEADLOCK")
+	if !r.WallClockOK && !hungAsPredicted {
 		fail("native run exceeded the 1s wall-clock window")
 		return
 	}
